@@ -50,7 +50,7 @@ REQUIRED_OBS = {'vectorstarsets_checked': 60, 'eval:C25:orthonormal': 60, 'eval:
                 'eval:C25:rate0expansion': 100, 'eval:C25:rate0escape': 100, 'eval:C25:bias1expansion': 100,
                 'eval:C25:bias0expansion': 100, 'eval:C25:bare': 100, 'origin_vectorstars': 20, 'om2_origin_terms': 10,
                 'perp_vectorstars': 50, 'dim2_sets': 10, 'multisite_sets': 15, 'pruned_networks': 10,
-                'reuse_histories': 50, 'reuse_steps': 70, 'reuse_steps_basis_checked': 70, 'eval:C25:reuse=fresh': 120,
+                'reuse_histories': 50, 'reuse_steps': 70, 'reuse_steps_basis_checked': 70, 'eval:C25:reuse=fresh': 120, 'eval:C25:reuse-GFexpansion=fresh': 100, 'eval:C25:reuse-expansions=fresh': 100,
                 'reuse_step:range_changed': 25, 'reuse_step:origin_switched': 25, 'reuse_step:smaller_starset': 15,
                 'reuse_histories:empty': 10, 'reuse_histories:constructor': 10}
 CASE_TIMEOUT = 400
@@ -211,6 +211,20 @@ def reuse_history(mon, rng, stars, pg, crys, chem, jn, desc, kind, okN):
             np.shape(vs.outer) == np.shape(fresh.outer) and np.allclose(vs.outer, fresh.outer, rtol=0, atol=1e-12)
         mon.check(same, 'C25:reuse=fresh', lambda: '%d vector stars, a fresh VectorStarSet of the same star set has %d; %s' % (
             vs.Nvstars, fresh.Nvstars, det()), tags=xt)
+        # expansions asked at every step of the history (so that anything remembered from the previous star set is exposed)
+        with mon.guard('C25:reuse-expansions', tags=xt):
+            GFa, GFss_a = vs.GFexpansion()
+            GFb, GFss_b = fresh.GFexpansion()
+            okg = np.shape(GFa) == np.shape(GFb) and np.allclose(GFa, GFb, rtol=0, atol=1e-12) and GFss_a.Nstates == GFss_b.Nstates \
+                and GFa.shape[0] == vs.Nvstars
+            mon.check(okg, 'C25:reuse-GFexpansion=fresh',
+                      lambda: 'GFexpansion of the reused object has shape %s (%d GF states), of a fresh object %s (%d), basis has %d vector stars; %s' % (
+                          np.shape(GFa), GFss_a.Nstates, np.shape(GFb), GFss_b.Nstates, vs.Nvstars, det()), tags=xt)
+            n1 = ss.jumpnetwork_omega1()
+            ra, rb = vs.rateexpansions(n1[0], n1[1]), fresh.rateexpansions(n1[0], n1[1])
+            ba, bb = vs.biasexpansions(n1[0], n1[1]), fresh.biasexpansions(n1[0], n1[1])
+            oke = all(np.shape(x) == np.shape(y) and np.allclose(x, y, rtol=0, atol=1e-12) for x, y in zip(tuple(ra) + tuple(ba), tuple(rb) + tuple(bb)))
+            mon.check(oke, 'C25:reuse-expansions=fresh', lambda: 'rate / bias expansions of the reused object differ from those of a fresh object; %s' % det(), tags=xt)
         if step > 0:
             mon.count('reuse_steps')
             mon.count('reuse_step:range_changed', done[-1][0] != done[-2][0])
